@@ -226,6 +226,19 @@ def set_shard_refusal_findings(F):
                    "the restored value is QueryRouter::shard() read before the command was executed",
                    "a refused SET SHARD does not put back the shard the session had before the command (it clears it or keeps the refused one): SHOW SHARD and the routing of later queries no longer follow the last accepted SET")
 
+    # ... and putting it back works for every previous value, `none selected` included: set_shard stores what it is given on every way through
+    sb_ = F.body(QR + "set_shard")
+    if sb_ is None:
+        yield ("set_shard", None, "", "")
+    else:
+        stores = [blk for blk, i, st in sb_.assigns() if proj_fields(st["lhs"])[-1:] == ["active_shard"]
+                  and any(o.kind == "param" and o.what == 2 and not o.proj for o in origins(sb_, st["rv"].get("op")) if st["rv"]["k"] == "use")]
+        rets = [bb for bb, blk_ in enumerate(sb_.blocks) if blk_["term"]["k"] == "return"]
+        wit = sb_.uncrossed_path([0], rets, blocks=stores)
+        yield ("restore-stores-whatever-it-is-given", bool(stores) and wit is None, "QueryRouter::set_shard assigns its argument to the selection on every path",
+               "QueryRouter::set_shard does not store its argument on every path (a None is ignored?): the restore after a refused SET SHARD on a session that had no shard selected leaves the refused number selected - "
+               "SHOW SHARD reports it and every later statement fails with InvalidShardId")
+
 
 def release_gate(F):
     """the field of Server that Server::claim sets and that makes Server::is_bad (hence ServerPool::has_broken) answer
@@ -471,6 +484,41 @@ def whole_reply_findings(F):
     out = []
     recv_callers = [n for n in F.callers_of("pgcat::server::Server::recv") if n not in EXEMPT and not throwaway(n)]
     out.append(("recv-callers", len(recv_callers) >= 3, "%d functions call Server::recv directly (%s); each must take whole replies" % (len(recv_callers), ", ".join(n.split("::")[-2] for n in recv_callers)), "callers of Server::recv not found"))
+    # a `rest reader`: a reader whose loop tests the flag first (`while is_data_available() { recv }`) - entered right after a send it reads nothing, the flag being
+    # what the previous reply left (false). It completes a reply only behind a recv of its own caller.
+    def normal_returns(b_):
+        okb_ = [blk for blk, i, st in b_.assigns() if st["lhs"]["l"] == 0 and st["rv"]["k"] == "agg" and st["rv"].get("variant") == "Ok"]
+        rets_ = [bb for bb, blk_ in enumerate(b_.blocks) if blk_["term"]["k"] == "return"]
+        return okb_ or rets_
+
+    def err_blocks(b_):
+        return {c.block for c in b_.calls("re:FromResidual<.*>>::from_residual$")} | {blk for blk, i, st in b_.assigns() if st["rv"]["k"] == "agg" and st["rv"].get("variant") == "Err" and "result::Result" in st["rv"].get("adt", "")}
+    rest_readers = {}
+    for fn in recv_callers:
+        b_ = F.body(fn)
+        if b_ is None:
+            continue
+        rc_ = b_.calls(RSM, "pgcat::server::Server::recv")
+        if not b_.calls("pgcat::server::Server::send") and b_.uncrossed_path([0], normal_returns(b_), blocks=[c.block for c in rc_] + list(err_blocks(b_))) is not None:
+            rest_readers[fn] = strip_generics(fn).replace("::{closure#0}", "")
+    rr_names = set(rest_readers.values())
+    # ... so every call of a rest reader comes after a recv that follows the last send (in the caller)
+    for fn_, b_ in sorted(F.bodies.items()):
+        if fn_.startswith("bin:") or not rr_names:
+            continue
+        hc = [c for c in b_.calls() if strip_generics(c.name) in rr_names]
+        if not hc:
+            continue
+        sends = b_.calls("pgcat::server::Server::send")
+        rc_ = [c.block for c in b_.calls(RSM, "pgcat::server::Server::recv")]
+        short_ = fn_.split("::")[-2] if fn_.endswith("}") else fn_.split("::")[-1]
+        for c in hc:
+            starts = [s_.target for s_ in sends if s_.target is not None] or [0]
+            wit = b_.uncrossed_path(starts, [c.block], blocks=rc_)
+            out.append(("rest-reader-behind-a-recv:%s@%s" % (c.name.split("::")[-1], short_), wit is None,
+                        "%s calls %s only after a recv that follows its send" % (short_, c.name.split("::")[-1]),
+                        "%s calls %s right after a send, with no recv in between: the helper reads `while is_data_available()`, and that flag is what the previous reply left - false: the reply to what "
+                        "was just sent is not read at all and answers the next request on this connection" % (short_, c.name.split("::")[-1])))
     for fn in [SARL] + recv_callers:
         b = F.body(fn)
         short = fn.split("::")[-2]
@@ -480,6 +528,13 @@ def whole_reply_findings(F):
         sws = switches(b)
         rcv = b.calls(RSM, "pgcat::server::Server::recv")
         lh = [hd for hd in loop_headers(b) if any(c.block in natural_loop(b, hd) for c in rcv)]
+        if not lh and rr_names:
+            # no loop of its own: every recv is followed, on every way to a normal return, by a rest reader
+            hcb = [c.block for c in b.calls() if strip_generics(c.name) in rr_names]
+            wit = b.uncrossed_path([c.target for c in rcv if c.target is not None], normal_returns(b), blocks=hcb + list(err_blocks(b)))
+            out.append(("loop:" + short, bool(hcb) and wit is None, "%s reads the first piece and hands the rest to %s on every way out" % (short, sorted(x.split("::")[-1] for x in rr_names)),
+                        "%s does not loop over the pieces of a reply and does not hand the rest to a reader that does: only the first piece (8 KiB) of a large reply is read, the rest stays on the connection and answers the next request" % short))
+            continue
         if not lh:
             out.append(("loop:" + short, False, "", "%s does not loop over the pieces of a reply: only the first piece (8 KiB) of a large reply is read, the rest stays on the connection and answers the next request" % short))
             continue
@@ -807,6 +862,98 @@ def user_override_findings(F):
     return res
 
 
+def user_override_precedence_findings(F):
+    """... and the precedence itself: where both namesakes take part in one decision, the user's value is looked at first. Evidence of `a before b`:
+    `a.or(b)` / `a.or_else(..b..)` / `a.unwrap_or(b)` / `a.unwrap_or_else(..b..)` (receiver first), or a test of a's discriminant that dominates the test of b's.
+    A pgcat helper that receives both is followed: the evidence is read on its parameters. Returns [(field, ok|None, detail)]"""
+    fc = F.body("pgcat::pool::ConnectionPool::from_config::{closure#0}")
+    ua = F.adts.get("pgcat::config::User")
+    pa = F.adts.get("pgcat::config::Pool")
+    if fc is None or ua is None or pa is None:
+        return None
+    uf = {f["name"]: f["ty"] for f in ua["variants"][0]["fields"]}
+    pf = {f["name"] for f in pa["variants"][0]["fields"]}
+    shared = sorted(n for n, ty in uf.items() if n in pf and "Option<" in ty)
+    ORS = "re:^core::option::Option::(or|or_else|unwrap_or|unwrap_or_else|xor|map_or|map_or_else)$"
+
+    def owner_of(b, op, field):
+        """which of ('User', 'Pool') the operand derives from through `field` (in from_config)"""
+        out = set()
+        for o in origins(b, op, taint=True):
+            if o.kind in ("place", "param") and isinstance(o.what, int) and o.what < len(b.locals):
+                ty = b.locals[o.what]["ty"]
+                fs = [p_[1:] for p_ in o.proj if isinstance(p_, str) and p_.startswith(".") and not p_[1:].isdigit()]
+                if fs and fs[0] == field:
+                    if "config::User" in ty:
+                        out.add("User")
+                    if "config::Pool" in ty:
+                        out.add("Pool")
+        return out
+
+    def param_of(b, op):
+        return {o.what for o in origins(b, op, taint=True) if o.kind == "param" and isinstance(o.what, int) and 1 <= o.what <= b.argc}
+
+    def pairs(b, classify):
+        """[(class of the first, class of the second)] over the evidence found in body b; classify(op) -> set of classes"""
+        out = []
+        for c in b.calls(ORS):
+            if len(c.args) >= 2:
+                for x in classify(c.args[0]):
+                    for y in classify(c.args[1]):
+                        if x != y:
+                            out.append((x, y))
+        dsw = []
+        for sw in switches(b):
+            d = sw.discr()
+            if d and "option::Option" in d[0]:
+                cls = classify({"c": "copy", "pl": d[1]}) if isinstance(d[1], dict) else set()
+                if cls:
+                    dsw.append((sw, cls))
+        for s1, c1 in dsw:
+            for s2, c2 in dsw:
+                if s1.block != s2.block and b.dominates(s1.block, s2.block):
+                    for x in c1:
+                        for y in c2:
+                            if x != y:
+                                out.append((x, y))
+            # the other value need not be an Option: it is read in an arm of the test of the first
+            for blk, i, st in b.assigns():
+                if blk != s1.block and b.dominates(s1.block, blk) and st["rv"]["k"] in ("use", "ref", "cast"):
+                    op_ = st["rv"].get("op") or ({"c": "copy", "pl": st["rv"]["pl"]} if st["rv"].get("pl") else None)
+                    if op_ is None:
+                        continue
+                    direct = set()
+                    pl_ = op_place(op_)
+                    if pl_ is not None:
+                        direct = classify({"c": "copy", "pl": pl_}) if not any(isinstance(p_, str) and p_.startswith("@") for p_ in pl_["p"]) else set()
+                    for y in direct:
+                        for x in c1:
+                            if x != y:
+                                out.append((x, y))
+        return out
+    res = []
+    for n in shared:
+        ev = pairs(fc, lambda op, n=n: owner_of(fc, op, n))
+        for c in fc.calls():
+            if not c.name.startswith("pgcat::") or len(c.args) < 2:
+                continue
+            who = [owner_of(fc, a, n) for a in c.args]
+            iu = [k for k, w in enumerate(who) if w == {"User"}]
+            ip = [k for k, w in enumerate(who) if w == {"Pool"}]
+            hb = F.body(strip_generics(c.name)) if (iu and ip) else None
+            if hb is None:
+                continue
+            pm = {iu[0] + 1: "User", ip[0] + 1: "Pool"}
+            ev += pairs(hb, lambda op, hb=hb, pm=pm: {pm[k] for k in param_of(hb, op) if k in pm})
+        rel = [e for e in ev if set(e) == {"User", "Pool"}]
+        if not rel:
+            res.append((n, None, "no decision between User.%s and Pool.%s found in from_config" % (n, n)))
+        else:
+            bad = [e for e in rel if e[0] == "Pool"]
+            res.append((n, not bad, "%d decision(s), the user's value first" % len(rel) if not bad else "the pool's value is looked at before the user's"))
+    return res
+
+
 def recv_handout_findings(F):
     """Server::recv hands a reply out in pieces; `data_available` tells the caller whether more of this reply is to come. recv leaves its read loop
     before ReadyForQuery only in the arms of messages after which more data is flagged (DataRow, CopyOutResponse, CopyData of a flagged COPY OUT) or
@@ -968,4 +1115,41 @@ def completed_request_release_findings(F):
                     "the %s arm can go back to waiting for the client's next message without having looked at the server's transaction state (%s): a request that pgcat answers itself - a plugin's verdict, "
                     "a batch served from the statement cache - leaves the client idle, outside any transaction, with the server still checked out: nobody else can use it, the client's next transaction "
                     "starts without passing the PAUSE gate, a shutdown does not reach the client" % (nm, h.describe_path(wit) if wit else "")))
+    return out
+
+
+
+def ready_for_query_status_findings(F):
+    """Server.in_transaction follows the status byte of ReadyForQuery: in Server::recv it is cleared only for 'I'; 'T' and 'E' (a failed transaction block is still a
+    transaction block: it needs the ROLLBACK of check-in) set it. Returns [(key, ok, good, bad)] or None"""
+    rv = F.body("pgcat::server::Server::recv::{closure#0}")
+    if rv is None:
+        return None
+    clr, setb = [], []
+    for blk, i, st in rv.assigns():
+        if proj_fields(st["lhs"])[-1:] == ["in_transaction"] and st["rv"]["k"] == "use":
+            v = const_int(st["rv"].get("op"))
+            if v == 0:
+                clr.append(blk)
+            elif v == 1:
+                setb.append(blk)
+    sw = None
+    for sw_ in switches(rv):
+        vals = {v for v, _ in sw_.targets}
+        if sw_.ty in ("char", "u8", "u32") and {73, 84, 69} <= vals and len(vals) <= 4:
+            sw = sw_
+    if sw is None or not clr:
+        return None
+    tg = dict(sw.targets)
+    out = []
+    stray = [b_ for b_ in clr if rv.uncrossed_path([0], [b_], edges=[(sw.block, tg[73])]) is not None]
+    out.append(("status:cleared-only-for-I", not stray, "Server.in_transaction is cleared in recv only on the 'I' edge of the ReadyForQuery status (%d site(s))" % len(clr),
+                "Server.in_transaction is cleared at bb%s without the ReadyForQuery status having been found to be 'I'" % stray))
+    for v, nm in ((84, "T"), (69, "E")):
+        bad_clear = sorted(clr) if tg[v] == tg[73] else []
+        sets_here = [b_ for b_ in setb if rv.dominates(tg[v], b_) or b_ == tg[v]]
+        ok = not bad_clear and bool(sets_here)
+        out.append(("status:%s=>in-transaction" % nm, ok, "ReadyForQuery '%s' sets Server.in_transaction" % nm,
+                    "ReadyForQuery '%s' does not leave Server.in_transaction set%s: a %s is taken for `no transaction` - the server is released after the statement, check-in sends no ROLLBACK and opens the gate, "
+                    "the next client's statements run inside the previous client's transaction block" % (nm, " (its arm is the one that clears it)" if bad_clear else "", "failed transaction block" if nm == "E" else "transaction in progress")))
     return out
